@@ -4,7 +4,7 @@ from core import *
 HINV = ["Ledger", "OnePlace"]
 
 
-def hconsts(cbs=2, enq=3, inv=1, ops=(), cbshapes=(1, 2, 3, 4, 5, 6, 7), argshapes=(1, 2, 3, 4, 5, 6, 7), predshapes=(2, 3, 4, 5, 6), counts=(), filters=0, fprotos=()):
+def hconsts(cbs=2, enq=3, inv=1, ops=(), cbshapes=(1, 2, 3, 4, 5, 6, 7), argshapes=(1, 2, 3, 4, 5, 6, 7, 8), predshapes=(2, 3, 4, 5, 6), counts=(), filters=0, fprotos=()):
     return {"MaxCbs": cbs, "MaxEnq": enq, "MaxInv": inv, "Ops": set(ops), "CbShapes": set(cbshapes), "ArgShapes": set(argshapes), "PredShapes": set(predshapes),
             "Counts": set(c if c >= 0 else 100 - c for c in counts), "MaxFilters": filters, "FilterProtos": set(fprotos)}
 
@@ -28,7 +28,7 @@ def c14(tier, seed):
              "constants": hconsts(cbs=2 if quick else 3, enq=0, inv=1, ops={"al", "pl", "il", "rl", "iv"})}
     queue = {"module": "HetGen", "tag": "queue", "invariants": HINV,
              "constants": hconsts(cbs=1, enq=3 if quick else 4, inv=0, ops={"al", "nq", "pa", "po", "pi"}, cbshapes=(2, 3, 5, 7) if quick else (1, 2, 3, 4, 5, 6, 7),
-                                  argshapes=(1, 2, 4, 5, 6) if quick else (1, 2, 3, 4, 5, 6, 7))}
+                                  argshapes=(1, 2, 4, 6, 8) if quick else (1, 2, 3, 4, 5, 6, 7, 8))}     # 3, 7, 8: arguments that CONVERT to the prototype's parameter type (8: float -> int)
     # listeners that enqueue while process / processOne / processIf runs them (events arriving during a processing call)
     nested = {"module": "HetGen", "tag": "queue-nested", "invariants": HINV,
               "constants": hconsts(cbs=2, enq=3, inv=0, ops={"al", "pl", "nq", "pa", "po", "pi"}, cbshapes=(2, 8) if quick else (2, 3, 8), argshapes=(2, 4) if quick else (1, 2, 4, 6),
